@@ -8,6 +8,7 @@ import (
 	"go/token"
 	"go/types"
 	"strings"
+	"unsafe"
 
 	"golang.org/x/tools/go/ssa"
 )
@@ -89,9 +90,13 @@ type deferred struct {
 	inv  *ssa.CallCommon
 }
 
+// vkey: the data word of an ssa.Value interface (all implementations are pointers) — integer map keys are much
+// cheaper to hash than interface keys.
+func vkey(v ssa.Value) uintptr { return (*[2]uintptr)(unsafe.Pointer(&v))[1] }
+
 type Frame struct {
 	fn     *ssa.Function
-	env    map[ssa.Value]Value
+	env    map[uintptr]Value
 	defers []deferred
 	back   int
 }
@@ -137,7 +142,7 @@ func (x *Exec) global(g *ssa.Global) *Value {
 func (x *Exec) runStdInit(ini *ssa.Function) {
 	x.depth++
 	defer func() { x.depth-- }()
-	fr := &Frame{fn: ini, env: make(map[ssa.Value]Value, 16)}
+	fr := &Frame{fn: ini, env: make(map[uintptr]Value, 32)}
 	x.run(fr)
 }
 
@@ -181,7 +186,7 @@ func (fr *Frame) get(x *Exec, v ssa.Value) Value {
 	case *ssa.Builtin:
 		return v
 	}
-	if r, ok := fr.env[v]; ok {
+	if r, ok := fr.env[vkey(v)]; ok {
 		return r
 	}
 	x.engineErr("unbound SSA value %s in %s", v.Name(), fr.fn)
@@ -210,12 +215,12 @@ func (x *Exec) callFunction(fn *ssa.Function, args []Value, env []Value) Value {
 		panic(pathAbort{"unwind: recursion depth exceeded in " + fn.String()})
 	}
 	defer func() { x.depth-- }()
-	fr := &Frame{fn: fn, env: make(map[ssa.Value]Value, 16)}
+	fr := &Frame{fn: fn, env: make(map[uintptr]Value, 32)}
 	for i, p := range fn.Params {
-		fr.env[p] = args[i]
+		fr.env[vkey(p)] = args[i]
 	}
 	for i, fv := range fn.FreeVars {
-		fr.env[fv] = env[i]
+		fr.env[vkey(fv)] = env[i]
 	}
 	return x.run(fr)
 }
@@ -257,7 +262,7 @@ func (x *Exec) run(fr *Frame) Value {
 			}
 		}
 		for i := 0; i < nphi; i++ {
-			fr.env[block.Instrs[i].(*ssa.Phi)] = phiVals[i]
+			fr.env[vkey(block.Instrs[i].(*ssa.Phi))] = phiVals[i]
 		}
 		n := int64(len(block.Instrs) - nphi)
 		x.c.where = fr.fn
@@ -395,11 +400,11 @@ func (x *Exec) instr(fr *Frame, ins ssa.Instruction) {
 	case *ssa.Alloc:
 		cell := new(Value)
 		*cell = x.zero(ins.Type().(*types.Pointer).Elem())
-		fr.env[ins] = cell
+		fr.env[vkey(ins)] = cell
 	case *ssa.UnOp:
-		fr.env[ins] = x.unop(fr, ins)
+		fr.env[vkey(ins)] = x.unop(fr, ins)
 	case *ssa.BinOp:
-		fr.env[ins] = x.binop(ins.Op, ins.X.Type(), fr.get(x, ins.X), fr.get(x, ins.Y), ins.Y.Type())
+		fr.env[vkey(ins)] = x.binop(ins.Op, ins.X.Type(), fr.get(x, ins.X), fr.get(x, ins.Y), ins.Y.Type())
 	case *ssa.Call:
 		fv, args, inv := x.prepareCall(fr, &ins.Call)
 		var r Value
@@ -410,7 +415,7 @@ func (x *Exec) instr(fr *Frame, ins ssa.Instruction) {
 		} else {
 			r = x.callValue(fv, args)
 		}
-		fr.env[ins] = r
+		fr.env[vkey(ins)] = r
 	case *ssa.Defer:
 		fv, args, inv := x.prepareCall(fr, &ins.Call)
 		d := deferred{fn: fv, args: args}
@@ -431,17 +436,17 @@ func (x *Exec) instr(fr *Frame, ins ssa.Instruction) {
 		}
 		*p = copyVal(fr.get(x, ins.Val))
 	case *ssa.ChangeType:
-		fr.env[ins] = fr.get(x, ins.X)
+		fr.env[vkey(ins)] = fr.get(x, ins.X)
 	case *ssa.ChangeInterface:
-		fr.env[ins] = fr.get(x, ins.X)
+		fr.env[vkey(ins)] = fr.get(x, ins.X)
 	case *ssa.MakeInterface:
-		fr.env[ins] = Iface{t: ins.X.Type(), v: fr.get(x, ins.X)}
+		fr.env[vkey(ins)] = Iface{t: ins.X.Type(), v: fr.get(x, ins.X)}
 	case *ssa.Convert:
-		fr.env[ins] = x.convert(ins.X.Type(), ins.Type(), fr.get(x, ins.X))
+		fr.env[vkey(ins)] = x.convert(ins.X.Type(), ins.Type(), fr.get(x, ins.X))
 	case *ssa.Extract:
-		fr.env[ins] = fr.get(x, ins.Tuple).(Tuple)[ins.Index]
+		fr.env[vkey(ins)] = fr.get(x, ins.Tuple).(Tuple)[ins.Index]
 	case *ssa.Field:
-		fr.env[ins] = fr.get(x, ins.X).(Struct)[ins.Field]
+		fr.env[vkey(ins)] = fr.get(x, ins.X).(Struct)[ins.Field]
 	case *ssa.FieldAddr:
 		p := fr.get(x, ins.X).(*Value)
 		if p == nil {
@@ -451,7 +456,7 @@ func (x *Exec) instr(fr *Frame, ins ssa.Instruction) {
 		if !ok {
 			x.engineErr("FieldAddr on %T (%s)", *p, ins.X.Type())
 		}
-		fr.env[ins] = &s[ins.Field]
+		fr.env[vkey(ins)] = &s[ins.Field]
 	case *ssa.Index:
 		xv := fr.get(x, ins.X)
 		idx := fr.get(x, ins.Index).(*Term)
@@ -463,19 +468,19 @@ func (x *Exec) instr(fr *Frame, ins ssa.Instruction) {
 					vs[i] = b
 				}
 				if x.symIndexOK(idx, vs) {
-					fr.env[ins] = x.symLoad(SymElemPtr{vs, idx})
+					fr.env[vkey(ins)] = x.symLoad(SymElemPtr{vs, idx})
 					break
 				}
 			}
 			i := x.index(idx, len(xv.b))
-			fr.env[ins] = xv.b[i]
+			fr.env[vkey(ins)] = xv.b[i]
 		case Array:
 			if x.symIndexOK(idx, xv) {
-				fr.env[ins] = x.symLoad(SymElemPtr{xv, idx})
+				fr.env[vkey(ins)] = x.symLoad(SymElemPtr{xv, idx})
 				break
 			}
 			i := x.index(idx, len(xv))
-			fr.env[ins] = xv[i]
+			fr.env[vkey(ins)] = xv[i]
 		default:
 			x.engineErr("Index on %T", xv)
 		}
@@ -485,27 +490,27 @@ func (x *Exec) instr(fr *Frame, ins ssa.Instruction) {
 		switch xv := xv.(type) {
 		case Slice:
 			if x.symIndexOK(idx, xv.a) {
-				fr.env[ins] = SymElemPtr{xv.a, idx}
+				fr.env[vkey(ins)] = SymElemPtr{xv.a, idx}
 				break
 			}
 			i := x.index(idx, len(xv.a))
-			fr.env[ins] = &xv.a[i]
+			fr.env[vkey(ins)] = &xv.a[i]
 		case *Value:
 			if xv == nil {
 				x.gopanic("nil pointer dereference (index of nil array pointer)")
 			}
 			a := (*xv).(Array)
 			if x.symIndexOK(idx, a) {
-				fr.env[ins] = SymElemPtr{a, idx}
+				fr.env[vkey(ins)] = SymElemPtr{a, idx}
 				break
 			}
 			i := x.index(idx, len(a))
-			fr.env[ins] = &a[i]
+			fr.env[vkey(ins)] = &a[i]
 		default:
 			x.engineErr("IndexAddr on %T", xv)
 		}
 	case *ssa.Slice:
-		fr.env[ins] = x.slice(fr, ins)
+		fr.env[vkey(ins)] = x.slice(fr, ins)
 	case *ssa.MakeSlice:
 		n := fr.get(x, ins.Len).(*Term)
 		cp := fr.get(x, ins.Cap).(*Term)
@@ -548,9 +553,9 @@ func (x *Exec) instr(fr *Frame, ins ssa.Instruction) {
 		for i := range a {
 			a[i] = x.zero(elem)
 		}
-		fr.env[ins] = Slice{a: a}
+		fr.env[vkey(ins)] = Slice{a: a}
 	case *ssa.MakeMap:
-		fr.env[ins] = &MapV{}
+		fr.env[vkey(ins)] = &MapV{}
 	case *ssa.MapUpdate:
 		m := fr.get(x, ins.Map).(*MapV)
 		if m == nil {
@@ -579,16 +584,16 @@ func (x *Exec) instr(fr *Frame, ins ssa.Instruction) {
 			v = x.zero(vt)
 		}
 		if ins.CommaOk {
-			fr.env[ins] = Tuple{v, st.Bool(found)}
+			fr.env[vkey(ins)] = Tuple{v, st.Bool(found)}
 		} else {
-			fr.env[ins] = v
+			fr.env[vkey(ins)] = v
 		}
 	case *ssa.MakeClosure:
 		env := make([]Value, len(ins.Bindings))
 		for i, b := range ins.Bindings {
 			env[i] = fr.get(x, b)
 		}
-		fr.env[ins] = &Closure{fn: ins.Fn.(*ssa.Function), env: env}
+		fr.env[vkey(ins)] = &Closure{fn: ins.Fn.(*ssa.Function), env: env}
 	case *ssa.Range:
 		xv := fr.get(x, ins.X)
 		switch xv := xv.(type) {
@@ -614,10 +619,10 @@ func (x *Exec) instr(fr *Frame, ins ssa.Instruction) {
 					it.keys, it.vals = ks, vs
 				}
 			}
-			fr.env[ins] = it
+			fr.env[vkey(ins)] = it
 		case Str:
 			s := xv
-			fr.env[ins] = &rangeIter{s: &s}
+			fr.env[vkey(ins)] = &rangeIter{s: &s}
 		default:
 			x.engineErr("Range on %T", xv)
 		}
@@ -625,20 +630,20 @@ func (x *Exec) instr(fr *Frame, ins ssa.Instruction) {
 		it := fr.get(x, ins.Iter).(*rangeIter)
 		if ins.IsString {
 			if it.i >= len(it.s.b) {
-				fr.env[ins] = Tuple{st.False, x.intConst(0), st.Const(32, 0)}
+				fr.env[vkey(ins)] = Tuple{st.False, x.intConst(0), st.Const(32, 0)}
 			} else {
 				b := it.s.b[it.i]
 				if b.op == OpConst && b.k >= 0x80 {
 					x.engineErr("range over non-ASCII string not modelled")
 				}
-				fr.env[ins] = Tuple{st.True, x.intConst(int64(it.i)), st.Zext(b, 32)}
+				fr.env[vkey(ins)] = Tuple{st.True, x.intConst(int64(it.i)), st.Zext(b, 32)}
 				it.i++
 			}
 		} else {
 			if it.i >= len(it.keys) {
-				fr.env[ins] = Tuple{st.False, nil, nil}
+				fr.env[vkey(ins)] = Tuple{st.False, nil, nil}
 			} else {
-				fr.env[ins] = Tuple{st.True, it.keys[it.i], it.vals[it.i]}
+				fr.env[vkey(ins)] = Tuple{st.True, it.keys[it.i], it.vals[it.i]}
 				it.i++
 			}
 		}
@@ -666,9 +671,9 @@ func (x *Exec) instr(fr *Frame, ins ssa.Instruction) {
 			res = x.zero(ins.AssertedType)
 		}
 		if ins.CommaOk {
-			fr.env[ins] = Tuple{res, st.Bool(ok)}
+			fr.env[vkey(ins)] = Tuple{res, st.Bool(ok)}
 		} else {
-			fr.env[ins] = res
+			fr.env[vkey(ins)] = res
 		}
 	default:
 		x.engineErr("unsupported SSA instruction %T in %s", ins, fr.fn)
